@@ -78,6 +78,22 @@ ZeroLen ==
              <<PUSH0>> \o o \o <<RETURN>>,
              <<PUSH0>> \o o \o <<REVERT>>} : o \in offs}
 
+(* operands the implementation narrows to 64 bits: a wide value whose low 64 bits are a perfectly valid *)
+(* small operand (2^64 + x, 2^255 + x) must behave as the wide value it is                                *)
+WideLow ==
+  LET W255(low) == <<PUSH32, 128>> \o [i \in 1..30 |-> 0] \o <<low>>
+      wides(low) == {Push9(low), W255(low)}
+  IN UNION {{Push32Max \o w \o <<OpSHL>>, Push32Max \o w \o <<OpSHR>>, Push32Max \o w \o <<OpSAR>>} : w \in wides(1)} \cup
+     UNION {{Push32Max \o w \o <<OpBYTE>>, <<PUSH1, 128>> \o w \o <<OpSIGNEXTEND>>} : w \in wides(0)} \cup
+     UNION {{w \o <<CALLDATALOAD>>,
+             <<PUSH1, 8>> \o w \o <<PUSH0, CALLDATACOPY>>,
+             <<PUSH1, 8>> \o W255(0) \o <<PUSH0, CODECOPY>>} : w \in wides(1)} \cup
+     (* and the ones that must end the frame: the memory range does not exist, the return data is not that long *)
+     UNION {{w \o <<MLOAD>>, <<PUSH1, 1>> \o w \o <<MSTORE>>, <<PUSH1, 1>> \o w \o <<MSTORE8>>,
+             <<PUSH1, 1>> \o w \o <<SHA3>>, <<PUSH1, 1>> \o w \o <<RETURN>>,
+             <<PUSH1, 1, PUSH0>> \o w \o <<CALLDATACOPY>>, w \o <<PUSH0, PUSH0, CALLDATACOPY>>,
+             <<PUSH1, 1>> \o w \o <<PUSH0, MCOPY>>, <<PUSH0>> \o w \o <<PUSH0, RETURNDATACOPY>>} : w \in wides(0)}
+
 Macros ==
   (IF Len(st.stack) < 8 THEN {PushOf(v) : v \in Vals} ELSE {}) \cup
   {<<op>> : op \in {o \in WordOps : Has(Pops(o)) /\ (o = OpEXP => Len(Top(2)) <= 1)}} \cup
@@ -94,7 +110,7 @@ Macros ==
      THEN {<<PUSH1, Len(code) + 5, JUMP, PUSH1, JUMPDEST, JUMPDEST>>,                 \* jump over a fake JUMPDEST
            <<PUSH1, Len(code) + 3, JUMP, JUMPDEST>>} \cup
           (IF Has(1) THEN {<<PUSH1, Len(code) + 6, JUMPI, PUSH1 + 1, JUMPDEST, JUMPDEST, JUMPDEST>>} ELSE {}) \cup
-          NotTaken \cup DirtyCopy \cup ZeroLen
+          NotTaken \cup DirtyCopy \cup ZeroLen \cup WideLow
      ELSE {})
 
 GenInit == /\ code = <<>> /\ data \in GenDatas /\ st = InitState /\ status = "run" /\ jumped = FALSE /\ ret = <<>>
